@@ -252,3 +252,309 @@ _pa = REG.add(Contract(MS, "_sbml_to_model.process_association", "C10", [("ass",
 _pa.call_cases = [Case("any", ensures=_pa_call_post)]   # implied by the proved cases (same clauses, stated for the ghost result term)
 
 PA_KEYS = ["process_association"]
+
+
+# ================================================================ (2) _check_required, _check, _create_parameter
+# sbase: an opaque libsbml object; its accessors getId / getName / getMetaId are ASSUMED to return strings (ghost functions
+# sbase_id / sbase_name / sbase_metaid; libsbml returns "" for an unset attribute), hasattr(sbase, m) is the ghost predicate
+# sbase_has_method; str(sbase) inside the message is the ghost string sbase_str.  Messages are built with the opaque concatenation
+# STR_CONCAT (f-strings folded piece by piece, adjacent literals merged - contracts/c02_boundary.sjoin).
+from . import c02_boundary as BD  # noqa: E402
+from pyvc import engine as _ENG  # noqa: E402
+from pyvc.engine import STR_CONCAT  # noqa: E402
+
+_ENG.EXC_PARENTS.setdefault("CobraSBMLError", "Exception")
+REG.classes["SBase"] = []
+idS, nameS, metaS = (z3.Function(n, Ref, Id) for n in ("sbase_id", "sbase_name", "sbase_metaid"))
+strS = z3.Function("sbase_str", Ref, Id)
+hasS = z3.Function("sbase_has_method", Ref, Id, z3.BoolSort())
+VALID_SID = z3.Function("libsbml_isValidSBMLSId", Id, z3.BoolSort())
+_SB = [("self", TRef("SBase"))]
+for _m, _f in (("getId", idS), ("getName", nameS), ("getMetaId", metaS)):
+    _assumed("SBase." + _m, _SB, f"libsbml: {_m}() returns the attribute as a string (ghost {_f.name()}(x)), '' when it is not set; no "
+             "side effect", (lambda f: lambda eng, st, E: (st, VStr(f(E["self"].t))))(_f))
+
+
+def _cr_hasattr(eng, st, v, name):
+    if isinstance(v, VRef) and v.cls == "SBase":
+        return hasS(v.t, id_lit(name))
+    return None
+
+
+def _cr_fstring(eng, st, node, vs):
+    vs = [VStr(strS(v.t)) if isinstance(v, VRef) and v.cls == "SBase" else v for v in vs]
+    return BD.fstring_hook(eng, st, node, vs)
+
+
+def _cr_global(eng, name):
+    if name == "libsbml":
+        return VOpaque("libsbml")
+    return None
+
+
+def _cr_truth(eng, st, v):
+    # the truth value of an opaque libsbml answer (SyntaxChecker.isValidSBMLSId(value) ...): an unknown Boolean
+    if isinstance(v, VOpaque):
+        return fresh("opaque_truth", z3.BoolSort())
+    return None
+
+
+CR_HOOKS = {"hasattr": _cr_hasattr, "fstring": _cr_fstring, "truth_str": BD.truth_str_hook, "global": _cr_global, "truth": _cr_truth}
+
+
+def _nonempty(t):
+    return t != id_lit("")
+
+
+def cr_message(E, intended):
+    """the message of the CobraSBMLError as a z3 string term: base text + what identifies the object (id, else name, else metaId)"""
+    x = E["sbase"].t
+    base = unwrap(BD.sjoin(["Required attribute '", E["attribute"], "' cannot be found or parsed in '", VStr(strS(x)), "'."]), "id")
+    suf = lambda label, t: unwrap(BD.sjoin([f" with {label} '", VStr(t), "'"]), "id")  # noqa
+    has = lambda m: hasS(x, id_lit(m))  # noqa
+    c_id = z3.And(has("getId"), _nonempty(idS(x)))
+    c_name = z3.And(has("getName"), _nonempty(nameS(x)))
+    c_meta = z3.And(has("getMetaId"), _nonempty(metaS(x)))
+    meta_txt = metaS(x) if intended else nameS(x)
+    return z3.If(c_id, STR_CONCAT(base, suf("id", idS(x))),
+                 z3.If(c_name, STR_CONCAT(base, suf("name", nameS(x))),
+                       z3.If(c_meta, STR_CONCAT(base, suf("metaId", meta_txt)), base)))
+
+
+def _cr_raise_post(intended):
+    def post(E):
+        ev = getattr(E, "exc_value", None)
+        if ev is None or len(ev.args) != 1 or not isinstance(ev.args[0], (VStr, VConc)):
+            return z3.BoolVal(False)
+        return unwrap(ev.args[0], "id") == cr_message(E, intended)
+    return post
+
+
+def _cr_cases(intended):
+    out = []
+    c = Case("value=None", raises="CobraSBMLError", ensures=_cr_raise_post(intended))
+    c.params_override = {"value": TNone()}
+    out.append(c)
+    c = Case("value=''", requires=lambda E: E["value"].t == id_lit(""), raises="CobraSBMLError", ensures=_cr_raise_post(intended))
+    c.params_override = {"value": TStr()}
+    out.append(c)
+    c = Case("value-set", requires=lambda E: E["value"].t != id_lit(""),
+             ensures=lambda E: z3.BoolVal(isinstance(E.res, VStr)) if not isinstance(E.res, VStr) else E.res.t == E["value"].t)
+    c.params_override = {"value": TStr()}
+    out.append(c)
+    return out
+
+
+_CR_PARAMS = [("sbase", TRef("SBase")), ("value", TStr()), ("attribute", TStr())]
+# wired: the message as the code builds it - in the metaId branch the text quoted is getName() (necessarily '' there), NOT the
+# metaId (finding, reproduced natively: "... in '<Species>'. with metaId ''" for a species that has only metaid="meta_only_42")
+REG.add(Contract(MS, "_check_required", "C10", _CR_PARAMS, _cr_cases(False), key="_check_required"))
+# NOT wired (fails on exactly that branch): the message the code means to build, with the metaId quoted
+REG.add(Contract(MS, "_check_required", "C10", _CR_PARAMS, _cr_cases(True), key="_check_required@intended-message"))
+
+
+# ---------------------------------------------------------------- _check: the libsbml return-code convention
+# _check never raises and returns None (its docstring's "exits with status code 1" is not what it does - it only logs):
+#   value None -> one error logged;  an int equal to LIBSBML_OPERATION_SUCCESS (0) -> nothing;  any other int -> two errors logged;
+#   anything else (not None, type is not int - a bool included) -> nothing.
+# The log calls are recorded in a ghost counter through the `call_method` hook on LOGGER.
+def _ck_logged(st):
+    return st.ghost.get("c10_logged", z3.IntVal(0))
+
+
+def _ck_log_call(eng, st, recv, method, node):
+    # hook `log_call` (pyvc/engine.s_Expr): LOGGER.<method>(...) statements are counted, their arguments are not evaluated
+    if recv == "LOGGER":
+        st = st.setghost("c10_logged", _ck_logged(st) + (1 if method == "error" else 0))
+        return st.setghost("c10_logged_other", st.ghost.get("c10_logged_other", 0) + (0 if method == "error" else 1))
+    return None
+
+
+CK_HOOKS = {"log_call": _ck_log_call}
+
+
+def _ck_post(n):
+    return lambda E: z3.And(z3.BoolVal(isinstance(E.res, VNone)), z3.simplify(_ck_logged(E.s1) - _ck_logged(E.s0)) == n,
+                            z3.BoolVal(E.s1.ghost.get("c10_logged_other", 0) == 0))
+
+
+def _ck_cases():
+    out = []
+    for tag, t, req, n in (("None", TNone(), None, 1), ("int:success", TInt(), lambda E: E["value"].t == 0, 0),
+                           ("int:failure", TInt(), lambda E: E["value"].t != 0, 2), ("bool", TBool(), None, 0), ("str", TStr(), None, 0),
+                           ("float", TReal(), None, 0)):
+        c = Case("value=" + tag, requires=req, ensures=_ck_post(n))
+        c.params_override = {"value": t}
+        out.append(c)
+    return out
+
+
+REG.add(Contract(MS, "_check", "C10", [("value", TNone()), ("message", TStr())], _ck_cases(), key="_check",
+                 modifies=lambda E: [("ghost", "c10_logged", lambda st: fresh("logged", I))],
+                 note="LIBSBML_OPERATION_SUCCESS is read from the installed libsbml (0); `type(value) is int` is decided by the "
+                      "python class of the argument (bool is not int)"))
+CHECK_KEYS = ["_check_required", "_check"]
+FINDING_KEYS = ["_check_required@intended-message"]
+
+
+# ---------------------------------------------------------------- _create_parameter against the libsbml API (key _create_parameter@libsbml)
+# contracts/c10_c11_io.py ASSUMES `_create_parameter` (ghost table ptab: id -> value).  Here its body is verified against a model of
+# the libsbml calls it makes: model.createParameter() returns a NEW parameter object (recorded in the ghost list c10_created),
+# setId / setValue / setConstant / setSBOTerm / setUnits store what they are given, and - the ASSUMED meaning of the libsbml API -
+# a parameter that has received setId(i) and setValue(v) makes the model's table map i to v (ptab := ptab[i -> v]).
+# Proved: exactly ONE parameter is created; it gets id = pid, value = value, constant = constant, the SBO term exactly when `sbo` is a
+# non-empty string, the units flux_udef.getId() exactly when `units` is true; and the table afterwards is ptab[pid -> value]
+# (the post-condition c10_c11_io assumed).
+REG.classes["SbmlModel"] = []
+REG.classes["SbmlParameter"] = []
+_P_ATTRS = ("id", "value", "constant", "sbo", "units")
+
+
+def _cp_getattr(eng, st, v, name):
+    if isinstance(v, VObj) and v.cls in ("SbmlModel", "SbmlParameter") and "attr:" + name not in st.objs[v.oid]:
+        return [("ok", st, VFunc("bound", v, name))]
+    return None
+
+
+def _cp_call_method(eng, st, recv, name, pos, kw):
+    if isinstance(recv, VObj) and recv.cls == "SbmlModel" and name == "createParameter" and not pos and not kw:
+        st, p = alloc_obj(st, "SbmlParameter", {"attr:" + a: NONE for a in _P_ATTRS})
+        return [("ok", st.setghost("c10_created", st.ghost.get("c10_created", ()) + (p,)), p)]
+    setters = {"setId": "id", "setValue": "value", "setConstant": "constant", "setSBOTerm": "sbo", "setUnits": "units"}
+    if isinstance(recv, VObj) and recv.cls == "SbmlParameter" and name in setters and len(pos) == 1 and not kw:
+        st = st.updobj(recv.oid, **{"attr:" + setters[name]: pos[0]})
+        rec = st.objs[recv.oid]
+        if name in ("setId", "setValue") and not isinstance(rec["attr:id"], VNone) and not isinstance(rec["attr:value"], VNone):
+            k0, v0 = W.ptab(st)
+            val = eng.to_real(rec["attr:value"])
+            pid = unwrap(rec["attr:id"], "id")
+            st = st.setghost("ptab", (z3.Store(k0, pid, val.k), z3.Store(v0, pid, val.v)))
+        return [("ok", st, VInt(0))]
+    return None
+
+
+CP_HOOKS = chain_hooks({"getattr": _cp_getattr, "call_method": _cp_call_method, "truth_str": BD.truth_str_hook}, W.HOOKS)
+
+
+def _cp_body_post(E):
+    created = E.s1.ghost.get("c10_created", ())
+    if len(created) != 1:
+        return z3.BoolVal(False)
+    rec = E.s1.objs[created[0].oid]
+    b = lambda c: z3.BoolVal(c) if isinstance(c, bool) else c  # noqa
+    same = lambda got, want: z3.BoolVal(False) if isinstance(got, (VNone, VObj)) else b(E.eng.eq(E.s1, got, want))  # noqa
+    cs = [same(rec["attr:id"], E["pid"]), same(rec["attr:value"], E["value"]), same(rec["attr:constant"], E["constant"])]
+    sbo, units = E["sbo"], E["units"]
+    want_sbo = z3.BoolVal(False) if isinstance(sbo, VNone) else sbo.t != id_lit("")
+    cs.append(z3.Not(want_sbo) if isinstance(rec["attr:sbo"], VNone) else z3.And(want_sbo, same(rec["attr:sbo"], sbo)))
+    want_units = z3.BoolVal(False) if isinstance(units, VNone) else units.t
+    if isinstance(rec["attr:units"], VNone):
+        cs.append(z3.Not(want_units))
+    else:
+        cs.append(z3.And(want_units, z3.BoolVal(isinstance(E["flux_udef"], VRef)),
+                         same(rec["attr:units"], VStr(idS(E["flux_udef"].t))) if isinstance(E["flux_udef"], VRef) else z3.BoolVal(False)))
+    return z3.And(W._cp_post(E), *cs)
+
+
+def _cp_body_cases():
+    out = []
+    for sn, st_ in (("sbo=None", TNone), ("sbo=str", TStr)):
+        for un, ut, ft in (("units=None", TNone, TNone), ("units=bool", TBool, lambda: TRef("SBase"))):
+            c = Case(f"{sn},{un}", ensures=_cp_body_post)
+            c.params_override = {"sbo": st_(), "units": ut(), "flux_udef": ft()}
+            out.append(c)
+    return out
+
+
+def _sbml_model(st, name):
+    return alloc_obj(st, "SbmlModel", {})
+
+
+REG.add(Contract(MS, "_create_parameter", "C10", [("model", TCustom(_sbml_model)), ("pid", TStr()), ("value", TReal()), ("sbo", TNone()),
+                                                   ("constant", TBool()), ("units", TNone()), ("flux_udef", TNone())],
+                 _cp_body_cases(), key="_create_parameter@libsbml",
+                 modifies=lambda E: [("ghost", "ptab", lambda st: (fresh("ptab_k", W.RealMap[0]), fresh("ptab_v", W.RealMap[1]))),
+                                     ("ghost", "c10_created", lambda st: ())]))
+CP_KEYS = ["_create_parameter@libsbml"]
+
+
+# ---------------------------------------------------------------- _model_to_sbml: the five shared parameters (cross-function obligation)
+# `_create_bound` (contracts/c10_c11_io.py) is proved RELATIVE to `_defaults_ok`: the parameter table maps cobra_default_lb /
+# cobra_default_ub / cobra_0_bound / minus_inf / plus_inf to config.lower_bound / config.upper_bound / 0 / -inf / +inf.  Here the real
+# source of `_model_to_sbml` is executed and `_defaults_ok` is proved of the table AT EXIT - on a RESTRICTED PATH, stated as the
+# shape of the arguments: a model with an id and a name, WITHOUT compartments, metabolites, genes, reactions and groups (the five
+# loops run zero times), without `_sbml` meta data, objective direction "max", f_replace None / {} and units True / False.  The
+# five `_create_parameter` calls are straight-line code before the first loop and depend on nothing but `config`, so the
+# restriction loses nothing for THEM; what it does not show is that the loops keep the five entries (a reaction loop iteration
+# calls `_create_bound`, whose new parameter id  rid + "_" + bound_type  is an opaque concatenation - see the finding on colliding
+# SIds in the report).  libsbml objects are opaque values; `_sbase_annotations` / `_sbase_notes_dict` /
+# `linear_reaction_coefficients` are ASSUMED not to touch the parameter table.
+for _fn in ("_sbase_annotations", "_sbase_notes_dict"):
+    REG.add(Contract(MS, _fn, "C10", [("sbase", TNone()), ("data", TNone())], [Case("any")], assumed=True, key="C10:" + _fn,
+                     note=f"{_fn}(sbase, d): writes annotation / notes XML on one libsbml object through libsbml calls; creates no "
+                          "parameter (the ghost parameter table is unchanged)"))
+
+
+def _m2s_global(eng, name):
+    if name == "libsbml":
+        return VOpaque("libsbml")
+    if name == "UNITS_FLUX":
+        return VTuple((VConc("mmol_per_gDW_per_hr"), VTuple(tuple(VOpaque("Unit") for _ in range(4)))))
+    if name in ("_sbase_annotations", "_sbase_notes_dict"):
+        return VFunc("repo", "C10:" + name)
+    if name == "linear_reaction_coefficients":
+        return VFunc("abstract", name)
+    return None
+
+
+def _m2s_call_abstract(eng, st, f, pos, kw):
+    if f.a == "linear_reaction_coefficients":
+        return [("ok", st, VOpaque("reaction_coefficients"))]
+    return None
+
+
+M2S_HOOKS = chain_hooks({"global": _m2s_global, "call_abstract": _m2s_call_abstract, "truth_str": BD.truth_str_hook}, W.HOOKS)
+
+
+def _empty_model(st, name):
+    st, ann = alloc_obj(st, "dict", {"lazy": True})
+    st, notes = alloc_obj(st, "dict", {"lazy": True})
+    st, comp = alloc_obj(st, "dict", {"pure": True, "pyitems": ()})
+    st, obj = alloc_obj(st, "OptlangObjective", {"attr:direction": VConc("max")})
+    return alloc_obj(st, "ModelView", {
+        "attr:id": VStr(z3.Const(name + "_id", Id)), "attr:name": VStr(z3.Const(name + "_name", Id)),
+        "attr:annotation": VObj(ann.oid, "dict", "dict"), "attr:notes": VObj(notes.oid, "dict", "dict"),
+        "attr:compartments": VObj(comp.oid, "dict", "dict"), "attr:metabolites": VTuple(()), "attr:genes": VTuple(()),
+        "attr:reactions": VTuple(()), "attr:groups": VTuple(()), "attr:objective": obj})
+
+
+REG.classes["ModelView"] = []
+REG.classes["OptlangObjective"] = []
+
+
+def _m2s_post(E):
+    lo, hi = W.cfg_bounds()
+    pv = lambda n: W.pval(E.s1, id_lit(n))  # noqa
+    return z3.And(xr_eq(pv("cobra_default_lb"), lo), xr_eq(pv("cobra_default_ub"), hi), xr_eq(pv("cobra_0_bound"), VReal(0, 0)),
+                  xr_eq(pv("minus_inf"), VReal(-1, 0)), xr_eq(pv("plus_inf"), VReal(1, 0)))
+
+
+def _m2s_cases():
+    out = []
+    for fn, ft in (("f_replace=None", TNone), ("f_replace={}", lambda: _record([]))):
+        c = Case(f"empty-model,{fn}", ensures=_m2s_post)
+        c.params_override = {"f_replace": ft()}
+        out.append(c)
+    return out
+
+
+def _m2s_pre(E):
+    lo, hi = W.cfg_bounds()
+    return z3.And(lo.k >= -1, lo.k <= 1, hi.k >= -1, hi.k <= 1)
+
+
+REG.add(Contract(MS, "_model_to_sbml", "C10", [("cobra_model", TCustom(_empty_model)), ("f_replace", TNone()), ("units", TBool())],
+                 _m2s_cases(), pre=_m2s_pre, key="_model_to_sbml@default-parameters", result="opaque",
+                 modifies=lambda E: [("ghost", "ptab", lambda st: (fresh("ptab_k", W.RealMap[0]), fresh("ptab_v", W.RealMap[1])))],
+                 note="restricted path: model without compartments / metabolites / genes / reactions / groups / _sbml"))
+M2S_KEYS = ["_model_to_sbml@default-parameters"]
